@@ -89,6 +89,8 @@ def c01_table(rng, sid, nscen):
         pver = rng.choice([4, 5])
         steps = [connect(1, "s5", 5), connect(2, "s3", rng.choice([3, 4])), connect(3, "p", pver)]
         alias = {}
+        aliasmode = pver == 5 and rng.random() < 0.6
+        atopics = rng.sample(TOPICS, 3)
         n = 0
         rounds = rng.choice([1, 2])
         # a bystander whose session ends in the middle (its filters are often level-prefixes of, or equal to, the others'):
@@ -116,10 +118,12 @@ def c01_table(rng, sid, nscen):
                 retain = rng.random() < 0.25 and rnd == rounds - 1
                 if who < 0.55:
                     kw = {}
-                    if pver == 5 and rng.random() < 0.5:
-                        # the publisher uses topic aliases: bind / re-bind an alias (topic + alias) or send the alias alone
-                        al = rng.choice([1, 2, 10])
-                        if alias.get(al) == topic and rng.random() < 0.7:
+                    if aliasmode:
+                        # the publisher uses topic aliases over a few topics: bind / RE-bind an alias (topic + alias) or send
+                        # the alias alone when it is bound to this topic
+                        topic = rng.choice(atopics)
+                        al = rng.choice([1, 2])
+                        if alias.get(al) == topic and rng.random() < 0.8:
                             kw = {"alias": al, "notopic": True}
                         else:
                             alias[al] = topic
